@@ -572,6 +572,84 @@ api_harness!(future_in_span_pending_poll, stub_ready, {
     kani::assert(nlog() == 2 && rec(1).kind == 4 && rec(1).set_kind == 1 && rec(1).span_id == sid, "drop_before_completion_finishes_span: dropping the adapter finishes the span once");
 });
 
+// ---- C13: enter_on_poll (future.rs EnterOnPoll::poll).  Recording a local span through the real
+// SpanLine/SpanQueue exhausts CBMC, so the two LocalSpanStack operations the guard is made of are
+// replaced by recording stubs (their own behaviour is proved in the Verus unit `local`):
+// enter_span -> log 1 (+ the name, + a symbolic handle or None), exit_span -> log 3 (+ the handle);
+// the inner future logs 2.  Everything between -- EnterOnPoll::poll, LocalSpan::enter_with_local_parent,
+// enter_with_stack, the guard's Drop -- is the real code.
+use crate::local::local_span_line::LocalSpanHandle;
+use crate::local::local_span_stack::LocalSpanStack;
+use crate::local::span_queue::SpanHandle;
+
+pub static mut EOP_LOG: [u8; 8] = [0; 8];
+pub static mut EOP_N: usize = 0;
+pub static mut EOP_NAME_OK: bool = false;
+pub static mut EOP_ENTERED: bool = false;
+pub static mut EOP_HANDLE: (usize, usize) = (0, 0);
+pub static mut EOP_EXIT_MATCH: bool = false;
+
+fn eop(x: u8) { unsafe { if EOP_N < 8 { EOP_LOG[EOP_N] = x; } EOP_N += 1; } }
+
+pub fn stub_enter_span(_this: &mut LocalSpanStack, name: impl Into<std::borrow::Cow<'static, str>>) -> Option<LocalSpanHandle> {
+    let n: std::borrow::Cow<'static, str> = name.into();
+    unsafe { EOP_NAME_OK = n.len() == 4 && n.as_bytes()[0] == b'p' && n.as_bytes()[3] == b'l'; }
+    eop(1);
+    let epoch: usize = kani::any();
+    let index: usize = kani::any();
+    let some: bool = kani::any();
+    unsafe { EOP_HANDLE = (epoch, index); EOP_ENTERED = some; }
+    if some { Some(LocalSpanHandle { span_line_epoch: epoch, span_handle: SpanHandle { index } }) } else { None }
+}
+
+pub fn stub_exit_span(_this: &mut LocalSpanStack, h: LocalSpanHandle) {
+    unsafe { EOP_EXIT_MATCH = h.span_line_epoch == EOP_HANDLE.0 && h.span_handle.index == EOP_HANDLE.1; }
+    eop(3);
+}
+
+struct LogFut { ready: bool }
+impl Future for LogFut {
+    type Output = u8;
+    fn poll(self: Pin<&mut Self>, _cx: &mut Context<'_>) -> Poll<u8> {
+        eop(2);
+        if self.ready { Poll::Ready(7) } else { Poll::Pending }
+    }
+}
+
+#[kani::proof]
+#[kani::unwind(4)]
+#[kani::stub(crate::collector::global_collector::send_command, rec_send)]
+#[kani::stub(crate::collector::global_collector::force_send_command, rec_force)]
+#[kani::stub(crate::collector::SpanId::next_id, stub_next_id)]
+#[kani::stub(fastant::Instant::now, stub_now)]
+#[kani::stub(crate::collector::global_collector::reporter_ready, stub_ready)]
+#[kani::stub(crate::local::local_span_stack::LocalSpanStack::enter_span, stub_enter_span)]
+#[kani::stub(crate::local::local_span_stack::LocalSpanStack::exit_span, stub_exit_span)]
+pub fn future_enter_on_poll() {
+    let ready: bool = kani::any();
+    let mut f = LogFut { ready }.enter_on_poll("poll");
+    let waker = Waker::noop();
+    let mut cx = Context::from_waker(&waker);
+    let r = Pin::new(&mut f).poll(&mut cx);
+    kani::assert(r == (if ready { Poll::Ready(7) } else { Poll::Pending }), "adapter_is_transparent: the inner future's result is returned");
+    let (n, l) = unsafe { (EOP_N, EOP_LOG) };
+    kani::assert(unsafe { EOP_NAME_OK }, "per_poll_span_is_named: the local span is opened with the adapter's name");
+    if unsafe { EOP_ENTERED } {
+        kani::assert(n == 3 && l[0] == 1 && l[1] == 2 && l[2] == 3, "per_poll_local_span_covers_the_poll: local span entered, inner future polled once, span exited -- in this order, nothing else");
+        kani::assert(unsafe { EOP_EXIT_MATCH }, "per_poll_local_span_covers_the_poll: the span that is exited is the one that was entered");
+    } else {
+        kani::assert(n == 2 && l[0] == 1 && l[1] == 2, "per_poll_local_span_covers_the_poll: without a recording local parent the poll still runs once, inside the (empty) guard");
+    }
+    // a second poll opens a second local span
+    if !ready {
+        let _ = Pin::new(&mut f).poll(&mut cx);
+        let n2 = unsafe { EOP_N };
+        kani::assert(n2 == n + (if unsafe { EOP_ENTERED } { 3 } else { 2 }), "one_local_span_per_poll: the next poll enters (and exits) a span of its own");
+        kani::assert(unsafe { EOP_LOG[n] } == 1, "one_local_span_per_poll: the next poll starts by entering a span");
+    }
+    kani::assert(nlog() == 0, "per_poll_local_span_covers_the_poll: a poll sends no command of its own (the span is a local span of the enclosing scope)");
+}
+
 // ---- C14: Stream / Sink adapters (fastrace-futures/src/lib.rs compiled as crate::verif_futures_src, K7)
 use crate::verif_futures_src::{SinkExt as VSinkExt, StreamExt as VStreamExt};
 use crate::verif_futures_traits::{Sink, Stream};
